@@ -178,7 +178,9 @@ def check(report, tier, only=None):
            ('signature', lambda rep: tlsglue.ob_signature_delegation(rep, PROP)), ('dial_waits', lambda rep: dial.ob_dial_task(rep, PROP)),
            ('dial_result', ob_connecting_result), ('connect_request', ob_connect_request), ('handshake', ob_handshake), ('add_transition', C04.ob_add),
            # "registered" in dial_result_after_registration means add_peer: every connection it is given reaches ActivePeers::add (and gets its handler iff kept)
-           ('add_peer_wiring', lambda rep: __import__('props.handler', fromlist=['x']).ob_add_peer(rep, PROP))]
+           ('add_peer_wiring', lambda rep: __import__('props.handler', fromlist=['x']).ob_add_peer(rep, PROP)),
+           # the pin compares against the identity peer_id_from_certificate extracts: that must be the key the handshake signature was checked against (the parsed SPKI)
+           ('identity_extraction', lambda rep: tlsglue.ob_peer_id_extraction(rep, PROP))]
     for n, f in obs:
         if only and not any(s in n for s in only):
             continue
